@@ -2,9 +2,9 @@ package pxw
 
 import (
 	"bytes"
-	"strings"
 	"fmt"
 	"os"
+	"strings"
 	"testing"
 
 	"verif/sim/kernel"
